@@ -36,7 +36,7 @@ def _mix_jobs(seed, quick):
     n = 2 if quick else 8
     for k in range(n):
         s = seed * 1009 + k
-        jobs += [('sn', s, 'S0', k % 2 == 1), ('sn', s + 500, 'S1', k % 2 == 0),
+        jobs += [('sn', s, 'S0', k % 2 == 1), ('sn', s + 500, 'S1', k % 2 == 0), ('sn', s + 900, 'S2', k % 2 == 0),
                  ('mps', s, 'M0', k % 2 == 1), ('mps', s + 500, 'M1', k % 2 == 0),
                  ('odimo', s, 'M0', k % 2 == 1), ('odimo', s + 500, 'M1', k % 2 == 0)]
     return jobs
@@ -54,7 +54,7 @@ def run(ctx):
     ctx.rule = ('(a) PIT: grammar architectures (1-D causal and 2-D; conv/depthwise/residual/concat/pool/flatten/linear heads) x all applicable built-in specs as a dictionary '
                 '+ one single specification; trainable mask parameters seeded with dyadic values (styles rand / with exact zeros / small / big); per network: value, autograd '
                 'gradient of every trainable element, +1 magnitude bump of every element, weight perturbation, other input batch + eval mode, one raised and one lowered '
-                'parameter vector, all masks +-1, the cost specification re-assigned (same dict, dict -> single -> dict, single wrappers) while the masks are away from 1 and compared with a fresh wrapper carrying identical masks and, re-opened, with the original model, the metrics re-read in two other orders; (a2) the same with full_cost=True and 1-2 cost-bearing layers excluded by name (costed with their static sizes), one single-specification wrapper per metric; (b) fixed SuperNet (S0, S1) / MPS (M0, M1; per-layer and per-channel) / ODiMO_MPS (defaults) models with seeded coefficients; value and gradients again after forward -> export() / summary() / get_cost / export()+summary() without a forward in between; MPS (hard_softmax=True and eval()) / ODiMO (eval()) with one-hot sampled coefficients, seeded and extreme (a precision chosen by no channel): finite cost and gradients for every spec. '
+                'parameter vector, all masks +-1, trainability switches (train_net_only / train_nas_only / train_net_and_nas / train_features|rf|dilation := False) applied at random with cost and gradients of the still-trainable parameters unchanged (one persists through the float64 comparison with the model), every metric identical on wrappers traced with input_example of 1 and of 2..8 samples, the cost specification re-assigned (same dict, dict -> single -> dict, single wrappers) while the masks are away from 1 and compared with a fresh wrapper carrying identical masks and, re-opened, with the original model, the metrics re-read in two other orders; (a2) the same with full_cost=True and 1-2 cost-bearing layers excluded by name (costed with their static sizes), one single-specification wrapper per metric; (b) fixed SuperNet (S0, S1, S2 = Linear layers on (N, T, F) inputs) / MPS (M0, M1; per-layer and per-channel) / ODiMO_MPS (defaults) models with seeded coefficients, each also traced with input_example of 1 and of 2..8 samples; value and gradients again after forward -> export() / summary() / get_cost / export()+summary() without a forward in between; MPS (hard_softmax=True and eval()) / ODiMO (eval()) with one-hot sampled coefficients, seeded and extreme (a precision chosen by no channel): finite cost and gradients for every spec. '
                 'non-trivial = at least one searchable layer and one trainable non keep-alive parameter element; distinct = distinct (architecture, parameter values) / (model, seed)')
     from concurrent.futures import ProcessPoolExecutor
     import multiprocessing as mp
